@@ -107,6 +107,11 @@ var c03Ops = []string{"text", "text-fmt1", "text-fmt5", "json", "yaml", "toml", 
 // walking with the dry-run option (names are validated): both families must hand the same nodes to the callback
 // before they report the same error
 var c03DryWalkOps = []string{"walk-dry", "walkiter-dry", "walk-dry-massive"}
+
+// an encoded output right after a call of the same kind whose writer took only half of a write (whatever the failed call
+// left behind must not show), and a massive walk whose context is cancelled from inside the callback (both families
+// report the context's error)
+var c03AfterFaultOps = []string{"json-afw", "yaml-afw", "toml-afw", "text-afw", "walk-cancel-massive"}
 var massiveHung bool
 
 // c03Matrix: combinations of output options in various orders (later encodings override earlier ones, options that
@@ -120,6 +125,7 @@ var c03FSOps = []string{"mkdir", "mkdir-ext", "verify", "verify-strict", "mkdir-
 func c03Op(op string, root *gtree.Node, doc string, alias bool) (res opResult, pan string) {
 	var opts []gtree.Option
 	var j *fsx.Jail
+	var cancelCb func()
 	target := "\x00"
 	needFS := false
 	for _, f := range c03FSOps {
@@ -167,6 +173,17 @@ func c03Op(op string, root *gtree.Node, doc string, alias bool) (res opResult, p
 		}
 		op = "text"
 	}
+	afw := strings.HasSuffix(op, "-afw")
+	op = strings.TrimSuffix(op, "-afw")
+	cancelInCallback := op == "walk-cancel"
+	if cancelInCallback {
+		op = "walk"
+		massive = true
+		ctx, cancel := context.WithCancel(context.Background())
+		defer cancel()
+		opts = append(opts[:0:0], gtree.WithMassive(ctx))
+		cancelCb = cancel
+	}
 	if strings.HasSuffix(op, "-dry") && strings.HasPrefix(op, "walk") {
 		op = strings.TrimSuffix(op, "-dry")
 		opts = append(opts, gtree.WithDryRun())
@@ -196,6 +213,10 @@ func c03Op(op string, root *gtree.Node, doc string, alias bool) (res opResult, p
 	var rows []sut.WalkRow
 	var kept []*gtree.WalkerNode // nodes handed out are kept and read again after the walk: they must still describe their own node
 	cb := func(wn *gtree.WalkerNode) error {
+		if cancelCb != nil {
+			cancelCb() // the caller gives up while the walk is running
+			return nil
+		}
 		rows = append(rows, sut.FromWalker(wn))
 		kept = append(kept, wn)
 		return nil
@@ -222,6 +243,14 @@ func c03Op(op string, root *gtree.Node, doc string, alias bool) (res opResult, p
 		}
 	}
 	run(func() {
+		if afw {
+			fw := &failWriter{failAt: 1, short: true}
+			if root != nil {
+				gtree.OutputFromRoot(fw, root, opts...)
+			} else {
+				gtree.OutputFromMarkdown(fw, rd(), opts...)
+			}
+		}
 		switch op {
 		case "text", "text-fmt1", "text-fmt5", "json", "yaml", "toml", "dry":
 			switch {
@@ -371,6 +400,9 @@ func c03Sequence(c *rep.Ctx, calls []addCall, withFS bool) {
 	}
 	if len(calls) <= 5 {
 		ops = append(ops, c03DryWalkOps...)
+	}
+	if len(calls) >= 2 && len(calls) <= 4 {
+		ops = append(ops, c03AfterFaultOps...)
 	}
 	if withFS {
 		ops = append(ops, c03FSOps...)
